@@ -17,8 +17,8 @@ def only(*names):
 
 PROPERTIES = {
     "C01": {
-        "harness_modules": ["contracts.c01"],
-        "harness_filter": only("lemma.enc_sound"),
+        "harness_modules": ["contracts.c01", "contracts.c01glue"],
+        "harness_filter": only("lemma.enc_sound", "AtLeast.to_ge_polyhedron(glue)"),
         "rt": ["rt.logic:a_rs1_rows", "rt.logic:c01_encoding"],
         "level": "other",
         "assumptions": S_ALL + ["A-rs1 (assumed contract of the compiled extension puan_rspy.TheoryPy.to_ge_polyhedron: one big-M row per compound, "
@@ -32,7 +32,7 @@ PROPERTIES = {
                        "A x >= b <=> evaluate on random models incl. wide bounds and near-identical variants in sequence.",
     },
     "C02": {
-        "harness_modules": ["contracts.c01"],
+        "harness_modules": ["contracts.c01", "contracts.c01glue"],
         "rt": ["rt.logic:a_rs1_rows", "rt.logic:c02_solutions"],
         "level": "other",
         "assumptions": S_ALL + ["A-rs1 (see C01)"],
